@@ -876,7 +876,12 @@ func reduceEntries(entries []Entry, fn sutils.AggregateFunctions, fnConstant flo
 	switch fn {
 	case sutils.Sum:
 		for i := range entries {
-			ret += entries[i].dpVal
+			if i == 0 {
+				// start from the first value, not from +0: 0 + (-0) would lose the sign of a negative zero
+				ret = entries[i].dpVal
+			} else {
+				ret += entries[i].dpVal
+			}
 		}
 	case sutils.BottomK:
 		fallthrough
@@ -944,13 +949,21 @@ func reduceRunningEntries(entries []RunningEntry, fn sutils.AggregateFunctions, 
 	case sutils.Avg:
 		count := uint64(0)
 		for i := range entries {
-			ret += entries[i].runningVal
+			if i == 0 {
+				ret = entries[i].runningVal
+			} else {
+				ret += entries[i].runningVal
+			}
 			count += entries[i].runningCount
 		}
 		ret = ret / float64(count)
 	case sutils.Sum:
 		for i := range entries {
-			ret += entries[i].runningVal
+			if i == 0 {
+				ret = entries[i].runningVal
+			} else {
+				ret += entries[i].runningVal
+			}
 		}
 	case sutils.Min:
 		for i := range entries {
